@@ -29,12 +29,17 @@ RULE = ("(base, overlay document, inputs) triples: overlay documents are generat
         "template, <=4 inline/overlayRef overlays with skipIf absent/true/false/computed/non-bool, create.overlay) run "
         "through the real cache (prepare_and_cache), the real helpers and reconcile_resource_function with an in-memory API; "
         "flow stream: referenced ValueFunctions are offered again, koreo re-prepares the function from its cached spec, "
-        "the target is materialised again with equal inputs. "
+        "the target is materialised again with equal inputs; function streams: leaves that call every koreo CEL extension "
+        "function (flatten, overlay, *_ref, split*, strip, to_json, ...) on nested lists/maps/strings TAKEN FROM "
+        "inputs/locals/resource, at every level. "
         "non-trivial = the overlay shares at least one key with the base or has >=2 leaves; distinct by content")
 ASSUMPTIONS = [
     "Python dicts have unique keys: bases, inputs and overlay documents are well-formed (wf / wf_doc) in every theorem",
     "leaf expressions are the mini language EConst | EPath root path; celpy evaluates '=root.a.b' to the member value and "
     "fails (-> PermFail) on an unbound root, a missing member or a member of a non-map (exercised by every case)",
+    "a call of a koreo CEL extension function is an opaque computed value for the model: its value is what the real code "
+    "gives the same expression evaluated on its own on private copies of the activation (deterministic); whether it "
+    "modifies its arguments is NOT assumed but checked by the purity monitor",
     "static scalars reach the result unchanged (that is property C11; generators only use scalars on which the encoder is faithful)",
     "ValueFunctions have no preconditions (C13) ; a cached ResourceTemplate is ready (otherwise Retry, modelled)",
     "purity (no mutation of inputs/base/template/function, re-evaluation equal) is NOT a theorem: the Gallina model has no heap; "
@@ -76,12 +81,22 @@ def path_text(root, segs):
     return "=" + out
 
 
+def fn_text(d):
+    """["f", name, target_doc, [arg_doc..]]  ->  '=<target>.name(args)' : a call of one of koreo's CEL extension
+    functions on a value TAKEN FROM the activation (target and args are path or constant leaves)"""
+    def operand(x):
+        return path_text(x[1], x[2])[1:] if x[0] == "p" else json.dumps(x[1])
+    return "=" + operand(d[2]) + "." + d[1] + "(" + ", ".join(operand(a) for a in d[3]) + ")"
+
+
 def to_spec(d):
     t = d[0]
     if t == "c":
         return d[1]
     if t == "p":
         return path_text(d[1], d[2])
+    if t == "f":
+        return fn_text(d)
     if t == "l":
         return [to_spec(x) for x in d[1]]
     return {k: to_spec(v) for k, v in d[1]}
@@ -94,12 +109,18 @@ def spec_of_pairs(pairs):
 def c_expr(d):
     if d[0] == "c":
         return f"(EConst {cjson(d[1])})"
+    if d[0] == "f":
+        # a function-call leaf is a COMPUTED value for the model: its value is the one koreo gives the same
+        # expression when it is evaluated on its own, on private copies of the activation (resolve_fn)
+        if len(d) > 4 and "v" in d[4]:
+            return f"(EConst {cjson(d[4]['v'])})"
+        return '(EPath "c12-undefined" [])'
     return f"(EPath {cstr(d[1])} {clist(d[2], cstr)})"
 
 
 def c_doc(d):
     t = d[0]
-    if t in ("c", "p"):
+    if t in ("c", "p", "f"):
         return f"(DLeaf {c_expr(d)})"
     if t == "l":
         return f"(DList {clist(d[1], c_doc)})"
@@ -153,6 +174,10 @@ def ref_eval(d, env):
     t = d[0]
     if t == "c":
         return d[1]
+    if t == "f":
+        if len(d) > 4 and "v" in d[4]:
+            return copy.deepcopy(d[4]["v"])
+        raise RefUndefined("function leaf")
     if t == "p":
         return copy.deepcopy(ref_path(env, d[1], d[2]))
     if t == "l":
@@ -336,6 +361,45 @@ def vf_view(vf):
             sorted(vf.dynamic_input_keys))
 
 
+def has_fn(d) -> bool:
+    if d[0] == "f":
+        return True
+    if d[0] == "l":
+        return any(has_fn(x) for x in d[1])
+    if d[0] == "m":
+        return any(has_fn(v) for _, v in d[1])
+    return False
+
+
+def resolve_fn(d, env):
+    """give every function-call leaf its value: the same expression prepared and evaluated ON ITS OWN through
+    koreo's prepare_expression/evaluate, on a private copy of the activation.  (What the extension functions
+    compute is not C12's subject; that the value reaches the merge unchanged, that nothing is modified and that a
+    second evaluation agrees, is.)"""
+    t = d[0]
+    if t == "l":
+        return ["l", [resolve_fn(x, env) for x in d[1]]]
+    if t == "m":
+        return ["m", [[k, resolve_fn(v, env)] for k, v in d[1]]]
+    if t != "f":
+        return d
+    R = real()
+    info = {}
+    try:
+        runner = R.prepare.prepare_expression(cel_env=R.env, spec=fn_text(d), location="c12-fn")
+        if runner is not None and not isinstance(runner, R.result.PermFail):
+            v = R.evaluation.evaluate(runner, act(R, env), "c12-fn")
+            if not isinstance(v, R.result.PermFail):
+                info = {"v": plain(v)}
+    except Exception:  # noqa: BLE001
+        info = {}
+    return d[:4] + [info]
+
+
+def resolve_pairs(pairs, env):
+    return [[k, resolve_fn(v, env)] for k, v in pairs]
+
+
 def act(R, env):
     """activation as koreo builds it: plain-str root names, CEL values"""
     return {k: R.cel(v) for k, v in env.items()}
@@ -345,6 +409,14 @@ def act(R, env):
 
 def run_ov(case):
     R = real()
+    if any(has_fn(v) for _, v in case["spec"]):
+        case = {**case, "spec": resolve_pairs(case["spec"], {**case["env"], "resource": case["base"]})}
+    got = _run_ov(R, case)
+    got["_resolved"] = case
+    return got
+
+
+def _run_ov(R, case):
     spec = spec_of_pairs(case["spec"])
     ov = R.prepare.prepare_overlay_expression(cel_env=R.env, spec=copy.deepcopy(spec), location="c12")
     if ov is None:
@@ -445,8 +517,28 @@ def prepare_vf(R, name, f):
     return out
 
 
+def resolve_svf(f, inputs, base):
+    """function leaves of a ValueFunction see `inputs` (and `resource` when value_base is non-empty)"""
+    env = {} if inputs is None else {"inputs": inputs}
+    if base:
+        env["resource"] = base
+    return {"locals": resolve_pairs(f["locals"], env), "return": resolve_pairs(f["return"], env)}
+
+
+def svf_has_fn(f):
+    return any(has_fn(v) for _, v in f["locals"] + f["return"])
+
+
 def run_vf(case):
     R = real()
+    if svf_has_fn(case["f"]):
+        case = {**case, "f": resolve_svf(case["f"], case["inputs"], case["value_base"])}
+    got = _run_vf(R, case)
+    got["_resolved"] = case
+    return got
+
+
+def _run_vf(R, case):
     vf = prepare_vf(R, "c12-vf", case["f"])
     if not isinstance(vf, R.ValueFunction):
         return {"prepared": outcome(vf)}
@@ -597,11 +689,48 @@ class MiniApi:
         yield Resp()
 
 
+def resolve_rf(case):
+    """function leaves in a ResourceFunction case use inputs/locals only (the generator never roots them in
+    `resource`, whose value depends on the overlays before)"""
+    env = dict(case["env"])
+    c = dict(case)
+    t = case["template"]
+    if t[0] == "inline":
+        c["template"] = ["inline", resolve_pairs(t[1], env)]
+    steps = []
+    for s in case["steps"]:
+        s = dict(s)
+        if s["kind"] == "inline":
+            s["spec"] = resolve_pairs(s["spec"], env)
+        else:
+            s["inputs"] = resolve_pairs(s["inputs"], env)
+            try:
+                vin = ref_eval(["m", s["inputs"]], env) if s["inputs"] else None
+            except RefUndefined:
+                vin = None
+            s["f"] = resolve_svf(s["f"], vin, None)
+        steps.append(s)
+    c["steps"] = steps
+    c["create"] = resolve_pairs(case["create"], env)
+    return c
+
+
+def rf_has_fn(case):
+    docs = list(case["create"]) + (list(case["template"][1]) if case["template"][0] == "inline" else [])
+    for s in case["steps"]:
+        docs += s["spec"] if s["kind"] == "inline" else s["inputs"] + s["f"]["locals"] + s["f"]["return"]
+    return any(has_fn(v) for _, v in docs)
+
+
 def run_rf(case):
     R = real()
     R.reset()
     try:
-        return _run_rf(R, case)
+        if rf_has_fn(case):
+            case = resolve_rf(case)
+        got = _run_rf(R, case)
+        got["_resolved"] = case
+        return got
     finally:
         R.reset()
 
@@ -966,8 +1095,90 @@ def all_paths(v, prefix=()):
     return out
 
 
+# probability that a generated leaf is a call of a koreo CEL extension function (0 in the merge streams, raised
+# by the function streams: see fn_stream)
+P_FN = [0.0]
+
+
+class fn_stream:
+    def __init__(self, p):
+        self.p = p
+
+    def __enter__(self):
+        self.old, P_FN[0] = P_FN[0], self.p
+
+    def __exit__(self, *a):
+        P_FN[0] = self.old
+
+
+def g_fx(rng):
+    """values for the extension functions to chew on, to be placed under `fx` in inputs / locals / resource:
+    nested lists of lists (of maps), mixed-case strings, reference-shaped maps, an object with status.conditions,
+    two overlapping maps, base64 and JSON texts"""
+    import base64
+    def item():
+        return rng.choice([g_scalar(rng), {"verb": rng.choice(["get", "list", "watch"])}, {"k": [1, {"z": None}]},
+                           [1, 2], []])
+    ll = [[item() for _ in range(rng.randrange(0, 4))] for _ in range(rng.randrange(0, 5))]
+    name = rng.choice(["obj-a", "Thing", ""])
+    obj = {"apiVersion": rng.choice(["group.example/v1", "v1", ""]), "kind": rng.choice(["Widget", ""]),
+           "metadata": {"name": name, "namespace": rng.choice(["ns", ""]), "labels": {"a": "b"}},
+           "status": {"conditions": [{"type": rng.choice(["Ready", "Other"]), "reason": rng.choice(["UpToDate", "Updating"]),
+                                      "status": rng.choice(["True", "False"])}
+                                     for _ in range(rng.randrange(0, 3))]}}
+    ref = {"apiVersion": "group.example/v1beta1", "kind": "Widget", "name": rng.choice(["n", ""]), "namespace": "ns",
+           "extra": [1, 2]}
+    if rng.random() < 0.3:
+        ref["external"] = rng.choice(["projects/p/things/t", ""])
+    if rng.random() < 0.3:
+        ref["apiGroup"] = "explicit.group"
+    text = rng.choice(["Mixed/Case/Path", "  padded  ", "a,b,,c", "xxSTRIPxx", "", "one"])
+    return {"ll": ll, "s": text, "obj": obj, "ref": ref, "m1": g_nested(rng, 2), "m2": g_nested(rng, 2),
+            "b64": base64.b64encode(text.encode()).decode(), "js": json.dumps(g_json(rng, 2)),
+            "any": g_json(rng, 2), "deep": {"ll": [[{"a": [1]}], [[2], {"b": {}}], []]}}
+
+
+FN_TABLE = [   # name, key(s) of fx usable as target, argument makers
+    ("flatten", ["ll", "ll", "ll", ("deep", "ll")], lambda rng: []),
+    ("lower", ["s"], lambda rng: []),
+    ("strip", ["s"], lambda rng: [["c", rng.choice(["x", " ", "/"])]]),
+    ("rstrip", ["s"], lambda rng: [["c", rng.choice(["x", " ", "c"])]]),
+    ("split", ["s"], lambda rng: [["c", rng.choice(["/", ",", "x"])]]),
+    ("split_first", ["s"], lambda rng: [["c", rng.choice(["/", ","])]]),
+    ("split_last", ["s"], lambda rng: [["c", rng.choice(["/", ","])]]),
+    ("split_index", ["s"], lambda rng: [["c", rng.choice(["/", ","])], ["c", rng.choice([0, 1, 5])]]),
+    ("replace", ["s"], lambda rng: [["c", rng.choice(["a", "/"])], ["c", rng.choice(["", "--"])]]),
+    ("b64encode", ["s"], lambda rng: []),
+    ("b64decode", ["b64"], lambda rng: []),
+    ("to_json", ["any", "ll", "obj", "m1"], lambda rng: []),
+    ("from_json", ["js"], lambda rng: []),
+    ("to_ref", ["ref", "obj"], lambda rng: []),
+    ("group_ref", ["ref"], lambda rng: []),
+    ("kindless_ref", ["ref"], lambda rng: []),
+    ("self_ref", ["obj"], lambda rng: []),
+    ("config_connect_ready", ["obj"], lambda rng: []),
+    ("overlay", ["m1", "obj"], None),        # argument: another map taken from the same fx
+]
+
+
+def fn_roots(env):
+    return sorted(r for r in env if isinstance(env[r], dict) and isinstance(env[r].get("fx"), dict))
+
+
+def g_fn_leaf(rng, env):
+    root = rng.choice(fn_roots(env))
+    name, targets, mk = rng.choice(FN_TABLE) if rng.random() < 0.7 else FN_TABLE[0]
+    tk = rng.choice(targets)
+    target = ["p", root, ["fx"] + (list(tk) if isinstance(tk, tuple) else [tk])]
+    args = [["p", root, ["fx", rng.choice(["m2", "m1", "ref"])]]] if mk is None else mk(rng)
+    return ["f", name, target, args]
+
+
 def g_leaf(rng, env, p_path=0.4):
-    """a leaf document: static scalar or an expression into one of the roots"""
+    """a leaf document: static scalar, an expression into one of the roots, or (function streams) a call of a
+    koreo CEL extension function on a value taken from one of the roots"""
+    if P_FN[0] and rng.random() < P_FN[0] and fn_roots(env):
+        return g_fn_leaf(rng, env)
     if env and rng.random() < p_path:
         root = rng.choice(sorted(env))
         paths = all_paths(env[root])
@@ -1019,11 +1230,15 @@ def g_overlay(rng, base, env, depth, keys=KEYS, minlen=1):
     return out
 
 
-def g_env(rng, with_locals=True):
+def g_env(rng, with_locals=True, fx=False):
     env = {"inputs": g_map(rng, 3, IN_KEYS, 4, 1)}
     env["inputs"]["flag"] = rng.choice([True, False])
     if with_locals:
         env["locals"] = g_map(rng, 2, IN_KEYS, 2)
+    if fx:
+        env["inputs"]["fx"] = g_fx(rng)
+        if with_locals and rng.random() < 0.4:
+            env["locals"]["fx"] = g_fx(rng)
     return env
 
 
@@ -1066,9 +1281,11 @@ def shape_cases(maxn):
                 yield {"kind": "ov", "base": base, "spec": pairs, "env": {"inputs": {}}}
 
 
-def g_ov_case(rng):
-    env = g_env(rng)
+def g_ov_case(rng, fx=False):
+    env = g_env(rng, fx=fx)
     base = g_map(rng, rng.choice([1, 2, 3, 5]), KEYS, 4)
+    if fx and rng.random() < 0.5:
+        base["fx"] = g_fx(rng)
     spec = g_overlay(rng, base, {**env, "resource": base}, rng.choice([1, 2, 3, 4, 5]))
     return {"kind": "ov", "base": base, "spec": spec, "env": env}
 
@@ -1118,8 +1335,10 @@ def g_svf(rng, outer_env_inputs, base):
     return {"locals": locs, "return": ret}
 
 
-def g_vf_case(rng):
+def g_vf_case(rng, fx=False):
     inputs = g_map(rng, 3, IN_KEYS, 4, 1)
+    if fx:
+        inputs["fx"] = g_fx(rng)
     vb = rng.choice([None, {}, "map", "map", "map"])
     if vb == "map":
         vb = g_map(rng, 3, KEYS, 4, 1)
@@ -1130,8 +1349,8 @@ def g_vf_case(rng):
 RF_KEYS = KEYS + ID_KEYS
 
 
-def g_rf_case(rng):
-    env = g_env(rng)
+def g_rf_case(rng, fx=False):
+    env = g_env(rng, fx=fx)
     env["inputs"]["name"] = rng.choice(["n1", "obj-a"])
     case = {"kind": "rf", "env": env, "name": rng.choice(["obj", "the-name"]),
             "namespace": rng.choice(["ns1", "ns1", None]), "templates": {}, "owned": rng.random() < 0.5}
@@ -1177,6 +1396,8 @@ def g_rf_case(rng):
             if rng.random() < 0.7:
                 for k in rng.sample(["a", "b", "m"], rng.randrange(1, 3)):
                     vin.append([k, g_value_doc(rng, env, 1)])
+            if fx and rng.random() < 0.6:
+                vin.append(["fx", ["p", "inputs", ["fx"]]])
             try:
                 vinv = ref_eval(["m", vin], env) if vin else {}
             except RefUndefined:
@@ -1186,7 +1407,7 @@ def g_rf_case(rng):
             need = {d[2][0] for d in iter_paths(f) if d[1] == "inputs" and d[2]}
             have = {k for k, _ in vin}
             for k in sorted(need - have):
-                vin.append([k, ["c", g_scalar(rng)]])
+                vin.append([k, ["p", "inputs", ["fx"]] if k == "fx" and "fx" in env["inputs"] else ["c", g_scalar(rng)]])
             if any(d[1] == "inputs" and not d[2] for d in iter_paths(f)) and not vin:
                 vin.append(["a", ["c", 1]])
             steps.append({"kind": "fn", "f": f, "skip": sk, "inputs": vin})
@@ -1222,6 +1443,9 @@ def iter_paths(f):
     def walk(d):
         if d[0] == "p":
             yield d
+        elif d[0] == "f":
+            for x in [d[2]] + list(d[3]):
+                yield from walk(x)
         elif d[0] == "l":
             for x in d[1]:
                 yield from walk(x)
@@ -1248,6 +1472,18 @@ def fixed_cases():
     yield mk([["a", ["m", [["x", ["p", "resource", ["a", "y"]]]]]], ["new", ["p", "resource", ["a"]]]])
     yield mk([["k.dot", ["m", [["x-y", ["c", 1]]]]], ["a", ["m", [["k.dot", ["c", 2]]]]]])
     yield mk([["a", ["p", "inputs", ["nope"]]]])                                # evaluation failure
+    fe = {"inputs": {"fx": {"ll": [[{"verb": "get"}, {"verb": "list"}], [{"verb": "watch"}], [{"verb": "patch"}]],
+                            "s": "A/b/C", "m1": {"a": {"x": 1}}, "m2": {"a": {"y": 2}, "z": []}}}}
+    yield {"kind": "ov", "base": b, "env": fe,                                 # extension functions on inputs
+           "spec": [["rules", ["f", "flatten", ["p", "inputs", ["fx", "ll"]], []]],
+                    ["a", ["m", [["parts", ["f", "split", ["p", "inputs", ["fx", "s"]], [["c", "/"]]]],
+                                 ["low", ["f", "lower", ["p", "inputs", ["fx", "s"]], []]]]]],
+                    ["merged", ["f", "overlay", ["p", "inputs", ["fx", "m1"]], [["p", "inputs", ["fx", "m2"]]]]]]}
+    yield {"kind": "ov", "base": {"fx": fe["inputs"]["fx"], "keep": 1}, "env": {"inputs": {}},   # … on resource
+           "spec": [["fx", ["m", [["flat", ["f", "flatten", ["p", "resource", ["fx", "ll"]], []]]]]]]}
+    yield {"kind": "vf", "inputs": fe["inputs"], "value_base": {"rules": []},
+           "f": {"locals": [["all", ["f", "flatten", ["p", "inputs", ["fx", "ll"]], []]]],
+                 "return": [["rules", ["p", "locals", ["all"]]], ["again", ["f", "flatten", ["p", "inputs", ["fx", "ll"]], []]]]}}
     yield {"kind": "deep", "resource": b, "overlay": {"a": {}, "e": {"k": 1}, "s": {"k": 1}, "l": [], "new": {"x": {}}}}
     yield {"kind": "deep", "resource": {"metadata": "scalar"}, "overlay": {"metadata": {"name": "n"}}}
     yield {"kind": "vf", "f": {"locals": [["l1", ["p", "inputs", ["m"]]]],
@@ -1279,6 +1515,19 @@ def gen_cases(ctx: Ctx):
         yield g_rf_case(ctx.rng)
     for _ in range(200 if q else 2500):
         yield g_flow_case(ctx.rng)
+    # function streams: leaves that call koreo's CEL extension functions on values taken from inputs/locals/resource
+    for _ in range(500 if q else 6000):
+        with fn_stream(0.45):
+            c = g_ov_case(ctx.rng, fx=True)
+        yield c
+    for _ in range(200 if q else 2500):
+        with fn_stream(0.45):
+            c = g_vf_case(ctx.rng, fx=True)
+        yield c
+    for _ in range(250 if q else 3000):
+        with fn_stream(0.35):
+            c = g_rf_case(ctx.rng, fx=True)
+        yield c
 
 
 def nontrivial(case) -> bool:
@@ -1299,9 +1548,11 @@ def depth_of(d):
 
 
 def check_one(ctx: Ctx, case):
-    runf, oracle, coq = RUN[case["kind"]]
+    runf, oracle, coq0 = RUN[case["kind"]]
     got = runf(case)
-    bad = oracle(case, got)
+    rcase = got.pop("_resolved", case)
+    coq = (lambda _case, g, rc=rcase: coq0(rc, g))
+    bad = oracle(rcase, got)
     if bad:
         sig, what, want = bad
         seen = ctx.dist.setdefault("_shrunk", [])
@@ -1349,7 +1600,8 @@ def shrink(case, runf, oracle, sig, budget=300):
     the same failure (same signature) remains"""
     def fails(c):
         try:
-            b = oracle(c, runf(c))
+            g = runf(c)
+            b = oracle(g.pop("_resolved", c), g)
             return bool(b) and b[0] == sig
         except Exception:  # noqa: BLE001
             return False
@@ -1372,12 +1624,27 @@ def shrink(case, runf, oracle, sig, budget=300):
     return cur
 
 
+def fn_leaves(node):
+    """all function-call leaves anywhere in a case"""
+    if isinstance(node, list):
+        if len(node) >= 4 and node[0] == "f" and isinstance(node[1], str):
+            yield node
+            return
+        for x in node:
+            yield from fn_leaves(x)
+    elif isinstance(node, dict):
+        for x in node.values():
+            yield from fn_leaves(x)
+
+
 def run(ctx: Ctx):
     cases, terms = [], []
     try:
         for case in gen_cases(ctx):
             got, coq = check_one(ctx, case)
             k = case["kind"]
+            for leaf in fn_leaves({x: case.get(x) for x in ("spec", "f", "steps", "create", "template")}):
+                ctx.count(f"fn:{leaf[1]}:on:{leaf[2][1]}")
             ctx.note_case(case, nontrivial=nontrivial(case))
             ctx.count(f"kind:{k}")
             if k == "ov":
